@@ -11,6 +11,7 @@ import ThruVerif.Driver.UrlCmd
 import ThruVerif.Driver.HubCmd
 import ThruVerif.Driver.ServerCmd
 import ThruVerif.Driver.RouteCmd
+import ThruVerif.Driver.RaceCmd
 import ThruVerif.Model.Budget
 /-!
 `tvdriver`: one case per input line, one result per output line. The same lines are given to the Go
@@ -52,6 +53,7 @@ def handle (line : String) : String :=
   | "hub" :: ws => handleHub ws
   | "store" :: ws => handleStore ws
   | "route" :: ws => handleRoute ws
+  | "race" :: ws => handleRace ws
   | "srv" :: ws => handleSrv ws
   | "bucket" :: ws => handleBucket ws
   | "connlim" :: ws => handleConnLim ws
